@@ -398,6 +398,7 @@ def harnesses(tier, seed):
                    "complete_over": "all register / stack / tape / context contents and flags (symbolic)", "timeout": t,
                    # the contract function is shared by all destinations / tiers: the other arm is dead
                    "allow_unreachable": ["tmp_get(&m, t) & wm == val & wm", "cell_get::<C>(&m, i) == val & wm", "bad destination", "not an arithmetic instruction",
+                                         "(x & wm == va & wm",  # the operand clause of the Mul contract (dead for Copy / Add / Sub)
                                          "cg.code.len() == expect.len()", "cg.code[i] == expect[i]"]})
     for n, w, on_zero, lim in BRANCHES:
         hs.append({"name": MOD + n, "function": "basejit::CodeGen::{emit_program (BrZ/BrNZ arm), emit_limit_check, fix_relocations} <%s>" % w,
